@@ -120,6 +120,22 @@ def numeric_leaves(rep, T, I, rng, quick):
                     rep.violation("steam_vs_iapws:%g-%g" % (lo, hi), "N_steam_agrees_with_IAPWS97",
                                   {"t": t, "p": p, "ifc67": [d1, u1], "iapws97": [d2, u2], "tolerance": [td, tu]})
                     break
+    # the two IAPWS-97 routines called alternately at one temperature (nothing may be carried over from one to the other)
+    for t in list(np.linspace(5.0, 340.0, n)) + [rng.uniform(0.01, 340.0) for _ in range(n)]:
+        ps = max(T.sat(t), I.sat(t))
+        pl, pv = min(1.0e8, ps * 1.5 + 1.0e5), 0.5 * min(T.sat(t), I.sat(t))
+        for order in (0, 1):
+            if order == 0:
+                l2, v2 = I.cowat(t, pl), I.supst(t, pv)
+            else:
+                v2, l2 = I.supst(t, pv), I.cowat(t, pl)
+            l1, v1 = T.cowat(t, pl), T.supst(t, pv)
+            rep.case(None)
+            if abs(l1[0] - l2[0]) > 4.8e-3 * l2[0] or abs(l1[1] - l2[1]) > 7400.0 or abs(v1[0] - v2[0]) > 2.8e-3 * v2[0] or abs(v1[1] - v2[1]) > 9000.0:
+                rep.violation("alternating_liquid_steam_calls", "N_liquid_agrees_with_IAPWS97" if abs(l1[0] - l2[0]) > 4.8e-3 * l2[0] or abs(l1[1] - l2[1]) > 7400.0 else "N_steam_agrees_with_IAPWS97",
+                              {"t": t, "p_liquid": pl, "p_steam": pv, "order": "cowat, supst" if order == 0 else "supst, cowat",
+                               "ifc67": [list(l1), list(v1)], "iapws97": [list(l2), list(v2)]})
+                break
     for t in list(np.linspace(0.01, I.tcritical, 40 * n)):
         a, b = T.sat(t), I.sat(t)
         rep.case(None)
